@@ -332,6 +332,11 @@ class World:
 
     def ack(self, message, multiple):
         self._op("ack", message._queue, message.message_id, message._tag)
+        if multiple and message._consumer is not None:
+            # basic_ack(0, multiple=True): every outstanding delivery of that session is acknowledged with it
+            for m in [m for m in self.unacked if m is not message and m._consumer.instance == message._consumer.instance]:
+                self.unacked.remove(m)
+                self.trace.append(("ack_collateral", m._consumer.instance, m._queue, m.message_id if m._queue.startswith("asl_workflow_events") else m.correlation_id))
         if message in self.unacked:
             self.unacked.remove(message)
             self.trace.append(("ack", message._consumer.instance, message._queue, message.message_id if message._queue.startswith("asl_workflow_events") else message.correlation_id))
